@@ -25,6 +25,8 @@ RULES_DOC["R6"] = "= C05.R1: the timed wait releases the mutex and enqueues insi
 RULES_DOC["R7"] = "= C07.R6: the blocking pool pushes signal under the mutex for every push (each of several waiters in pop_wait / pop_timedwait is woken by its own push)"
 RULES_DOC["R8"] = "= C07.R1: the waiting pops of the shared pools release the pool lock on every path (a waiter that finds the queue empty does not leave with the lock)"
 RULES_DOC["X5"] = common.X5_DOC
+RULES_DOC["X6"] = common.X6_DOC
+RULES_DOC["R9"] = "the absolute deadline of ABT_cond_timedwait is tv_sec + tv_nsec scaled by 1e-9, with both members of the caller's timespec used unmodified (no modulo or clamping of tv_nsec: an un-normalised timespec still means the instant it names)"
 RULES_DOC.update({
     "R1": "timeout code: reached only after now >= target_time, with the lock held; is_timedout (= state != READY) and all unlink stores under the lock",
     "R2": "unlink distinguishes head/middle/tail and repairs p_head, p_tail, predecessor->p_next and successor->p_prev accordingly",
@@ -441,7 +443,48 @@ def _has_cycle(F, nodes):
     return None
 
 
+def rule_R9(P, rep):
+    F = P.fn("convert_timespec_to_sec", "src/cond.c")
+    rets = [F.nodes[i]["e"] for _b, i in F.all_events() if F.nodes[i].get("k") == "ret" and "e" in F.nodes[i]]
+    rep.need(rets, "convert_timespec_to_sec returns nothing")
+    # both members are used as they are: on the way from the member to the sum only scaling (casts, * and /) is applied
+    pm = F.parent_map()
+    members = [i for i, nd in enumerate(F.nodes) if nd and nd.get("k") == "mem" and nd.get("r") == "timespec" and
+               nd["f"] in ("tv_sec", "tv_nsec") and F.block_of(i) is not None or
+               (nd and nd.get("k") == "mem" and nd.get("r") == "timespec" and nd["f"] in ("tv_sec", "tv_nsec"))]
+    seen = set()
+    for m in members:
+        f = F.nodes[m]["f"]
+        seen.add(f)
+        x = m
+        bad = None
+        while x in pm:
+            p_ = pm[x]
+            pn = F.nodes[p_]
+            k = pn.get("k")
+            if k in ("load", "cast"):
+                x = p_
+                continue
+            if k == "bin" and not pn.get("asg") and pn["op"] in ("*", "/"):
+                x = p_
+                continue
+            if k == "bin" and not pn.get("asg") and pn["op"] in ("%", "&", "-", ">>", "<<", "|", "^"):
+                bad = pn["op"]
+            if k == "cond":
+                bad = "?:"
+            break
+        rep.ob("R9", "convert_timespec_to_sec uses timespec::%s unmodified (scaled at most)" % f, bad is None,
+               "`%s` is applied to %s: an un-normalised timespec no longer names the instant the caller meant" % (bad, f),
+               loc=F.loc(m), site="timespec/%s" % f)
+    rep.ob("R9", "convert_timespec_to_sec reads both members of the timespec", seen == {"tv_sec", "tv_nsec"}, str(sorted(seen)),
+           loc="%s:%d" % (F.file, F.line), site="timespec/members")
+    callers = sorted(x.split(":")[-1] for x in P.callers().get("src/cond.c:convert_timespec_to_sec", []))
+    rep.ob("R9", "ABT_cond_timedwait derives its deadline through that conversion", "ABT_cond_timedwait" in callers, str(callers),
+           loc="src/cond.c", site="timespec/used")
+
+
 def run(P, rep, tier):
+    common.rule_X6(P, rep)
     common.rule_widths(P, rep, [('ABTD_futex_multiple', 'val')])
     common.rule_X4(P, rep)
     common.run_shared(P, rep, which=("X2", "X3"))
@@ -463,3 +506,4 @@ def run(P, rep, tier):
     from . import C07
     common.borrow(rep, P, C07.rule_R6, "R7")
     common.borrow(rep, P, C07.rule_R1_R5, "R8", only=("R1",))
+    rule_R9(P, rep)
